@@ -1,7 +1,199 @@
 package main
 
-import "fmt"
+import (
+	"fmt"
+	"go/ast"
+	"go/parser"
+	"go/printer"
+	"go/token"
+	"os"
+	"path/filepath"
+	"sort"
+	"strings"
+)
+
+// Translator for the finite syntactic inventories (DESIGN §4.2): parses /repo with
+// go/parser and emits Coq tables under coq/Gen/.
+
+const repoDir = "/repo"
+
+var siteTables = map[string]func(fset *token.FileSet, files map[string]*ast.File) (string, error){}
+
+func parseRepoPkg(dir string) (*token.FileSet, map[string]*ast.File, error) {
+	fset := token.NewFileSet()
+	files := map[string]*ast.File{}
+	ents, err := os.ReadDir(dir)
+	if err != nil {
+		return nil, nil, err
+	}
+	for _, e := range ents {
+		n := e.Name()
+		if e.IsDir() || !strings.HasSuffix(n, ".go") || strings.HasSuffix(n, "_test.go") || n == "verif_export.go" {
+			continue
+		}
+		f, err := parser.ParseFile(fset, filepath.Join(dir, n), nil, parser.ParseComments)
+		if err != nil {
+			return nil, nil, err
+		}
+		files[n] = f
+	}
+	return fset, files, nil
+}
 
 func runSites(prop, out string) error {
-	return fmt.Errorf("no site table for %s", prop)
+	gen, ok := siteTables[prop]
+	if !ok {
+		return fmt.Errorf("no site table for %s", prop)
+	}
+	fset, files, err := parseRepoPkg(repoDir)
+	if err != nil {
+		return err
+	}
+	body, err := gen(fset, files)
+	if err != nil {
+		return err
+	}
+	hdr := "(* GENERATED from /repo by `vharness sites " + prop + "` on every run — do not edit *)\n"
+	return os.WriteFile(out, []byte(hdr+body), 0o644)
+}
+
+func nodeStr(fset *token.FileSet, n ast.Node) string {
+	var sb strings.Builder
+	_ = printer.Fprint(&sb, fset, n)
+	s := strings.Join(strings.Fields(sb.String()), " ")
+	if len(s) > 80 {
+		s = s[:80]
+	}
+	return s
+}
+
+func sortedFileNames(files map[string]*ast.File) []string {
+	var ns []string
+	for n := range files {
+		ns = append(ns, n)
+	}
+	sort.Strings(ns)
+	return ns
+}
+
+func recvTypeName(fd *ast.FuncDecl) string {
+	if fd.Recv == nil || len(fd.Recv.List) == 0 {
+		return ""
+	}
+	t := fd.Recv.List[0].Type
+	if st, ok := t.(*ast.StarExpr); ok {
+		t = st.X
+	}
+	if id, ok := t.(*ast.Ident); ok {
+		return id.Name
+	}
+	return ""
+}
+
+// ---------------- C12: uses of the destination writer in the methods of *template ----------------
+func init() { siteTables["C12"] = sitesC12 }
+
+func writerParam(fd *ast.FuncDecl) string {
+	for _, p := range fd.Type.Params.List {
+		if se, ok := p.Type.(*ast.SelectorExpr); ok {
+			if x, ok := se.X.(*ast.Ident); ok && x.Name == "io" && se.Sel.Name == "Writer" && len(p.Names) == 1 {
+				return p.Names[0].Name
+			}
+		}
+	}
+	return ""
+}
+
+func sitesC12(fset *token.FileSet, files map[string]*ast.File) (string, error) {
+	type meth struct {
+		name string
+		fd   *ast.FuncDecl
+		w    string
+	}
+	var ms []meth
+	names := map[string]bool{}
+	for _, fn := range sortedFileNames(files) {
+		for _, d := range files[fn].Decls {
+			fd, ok := d.(*ast.FuncDecl)
+			if !ok || fd.Body == nil || recvTypeName(fd) != "template" {
+				continue
+			}
+			if w := writerParam(fd); w != "" {
+				ms = append(ms, meth{fd.Name.Name, fd, w})
+				names[fd.Name.Name] = true
+			}
+		}
+	}
+	var rows []string
+	for _, m := range ms {
+		var uses []string
+		// parent map to know the statement context of each call
+		var stack []ast.Node
+		handled := map[*ast.Ident]bool{}
+		errKept := func() bool { // is the innermost enclosing statement one that keeps the call's error?
+			for i := len(stack) - 1; i >= 0; i-- {
+				switch s := stack[i].(type) {
+				case *ast.ReturnStmt:
+					return true
+				case *ast.AssignStmt:
+					for _, l := range s.Lhs {
+						if id, ok := l.(*ast.Ident); ok && id.Name == "err" {
+							return true
+						}
+					}
+					return false
+				case *ast.ExprStmt:
+					return false
+				}
+			}
+			return false
+		}
+		ast.Inspect(m.fd.Body, func(n ast.Node) bool {
+			if n == nil {
+				stack = stack[:len(stack)-1]
+				return true
+			}
+			stack = append(stack, n)
+			call, ok := n.(*ast.CallExpr)
+			if !ok {
+				return true
+			}
+			for ai, a := range call.Args {
+				id, ok := a.(*ast.Ident)
+				if !ok || id.Name != m.w {
+					continue
+				}
+				handled[id] = true
+				sel, _ := call.Fun.(*ast.SelectorExpr)
+				callee := ""
+				if sel != nil {
+					callee = sel.Sel.Name
+				}
+				recv := ""
+				if sel != nil {
+					recv = nodeStr(fset, sel.X)
+				}
+				switch {
+				case callee == "WriteTo" && len(call.Args) == 1 && errKept():
+					uses = append(uses, "UCopyReturned")
+				case callee == "Copy" && recv == "io" && ai == 0 && errKept():
+					uses = append(uses, "UCopyReturned")
+				case names[callee] && !strings.Contains(recv, "vue") && errKept():
+					uses = append(uses, "UDelegate "+coqBytes(callee))
+				default:
+					uses = append(uses, "UOther "+coqBytes(nodeStr(fset, call)))
+				}
+			}
+			return true
+		})
+		// any other mention of the writer parameter
+		ast.Inspect(m.fd.Body, func(n ast.Node) bool {
+			if id, ok := n.(*ast.Ident); ok && id.Name == m.w && !handled[id] {
+				uses = append(uses, "UOther "+coqBytes("mention of "+m.w+" outside a call argument"))
+			}
+			return true
+		})
+		rows = append(rows, fmt.Sprintf("  (%s, %s, [%s])", coqBytes(m.name), coqBool(ast.IsExported(m.name)), strings.Join(uses, "; ")))
+	}
+	return "From V Require Import Base.Bytes Model.Entry.\nDefinition sites : list site := [\n" + strings.Join(rows, ";\n") + "\n].\n", nil
 }
